@@ -78,7 +78,11 @@ def cg_source(cg):
     for line in cg.get("pre_lines", []):
         out.append("        " + line)
     for cp in cg["cps"]:
-        args = ["self.%s" % cp["target"]]
+        if cp.get("target_style") == "callable":
+            # sampling through a callable needs the coverpoint's type spelled out
+            args = ["lambda: self.%s" % cp["target"], "cp_t=%s" % type_src([p for p in cg["params"] if p["name"] == cp["target"]][0]["type"])]
+        else:
+            args = ["self.%s" % cp["target"]]
         iff = cp.get("iff")
         if iff:
             if "field" in iff:
